@@ -26,7 +26,7 @@ ids="$*"; [ -z "$ids" ] && ids=$(python3 -c "import json,sys;print(json.load(ope
 rc=0
 for id in $ids; do
   out=$(VERIF_REPO="$A" "$(dirname "$0")/../check" "$id" --tier "${TIER:-quick}" 2>&1); st=$?
-  if [ $st -eq 1 ]; then echo "caught  $id: $(echo "$out" | grep -m1 signature | sed 's/^ *//')"
+  if [ $st -eq 1 ]; then echo "caught  $id: $(echo "$out" | grep -a -m1 signature | sed 's/^ *//')"
   elif [ $st -eq 0 ]; then echo "MISSED  $id"; rc=1
   else echo "ERROR   $id (exit $st)"; echo "$out" | tail -6; rc=1; fi
 done
